@@ -88,6 +88,10 @@ def gen_case(rng, tier):
         options["instantiation_property"] = tp
     if rng.random() < 0.15:
         options["detect_minimal_iri"] = True
+    if rng.random() < 0.2 and "shape_map_raw" not in target and channel in ("nt", "tsv", "turtle_iter", "endpoint_off"):
+        # order-defined, but every child reads the same bytes in the same order on these channels (on store-backed
+        # channels the 'first k' follow rdflib's hash order: the open known finding, not re-litigated here)
+        options["instances_cap"] = rng.randint(1, 3)
     has_bn = any(t[2][0] == "b" for t in triples)
     if rng.random() < (0.7 if (endpoint and has_bn) else 0.1):
         options["examples_mode"] = rng.choice(["all", "cons", "cons", "shape"])
@@ -139,7 +143,8 @@ def generate(rng, tier, index):
     k = K_SEEDS[tier]
     hs = [0] + sorted(rng.sample(range(1, 4000000), k - 1))
     return {"cases": cases, "hashseeds": hs, "rand_seeds": [rng.randrange(1 << 30) for _ in hs],
-            "garbage": [rng.randrange(0, 20000) for _ in hs]}
+            "garbage": [rng.randrange(0, 20000) for _ in hs],
+            "optimize": [False] + [rng.random() < 0.4 for _ in hs[1:]]}
 
 
 # ---------------------------------------------------------------------------
@@ -222,12 +227,14 @@ def child_main():
 # parent
 # ---------------------------------------------------------------------------
 
-def _spawn(cases, hashseed, rand_seed, garbage):
+def _spawn(cases, hashseed, rand_seed, garbage, optimize=False):
     env = dict(os.environ)
     env["PYTHONHASHSEED"] = str(hashseed)
     env["DSIM_NO_REEXEC"] = "1"
     env["SHEXER_VERIF"] = "1"
-    cmd = [sys.executable, os.path.join(VERIF, "dsim", "main.py"), "C19", "--child"]
+    env.pop("PYTHONOPTIMIZE", None)
+    # some interpreters run optimised (-O: no asserts, __debug__ False): nothing in the result may depend on it
+    cmd = [sys.executable] + (["-O"] if optimize else []) + [os.path.join(VERIF, "dsim", "main.py"), "C19", "--child"]
     p = subprocess.run(cmd, input=json.dumps({"cases": cases, "rand_seed": rand_seed, "garbage": garbage}),
                        env=env, capture_output=True, text=True, timeout=1200)
     line = [l for l in p.stdout.splitlines() if l.startswith("CHILD ")]
@@ -250,9 +257,12 @@ def execute(scen, scratch):
     texts = []
     cases = scen["cases"]
     per_seed = []
-    for h, rs, gb in zip(scen["hashseeds"], scen["rand_seeds"], scen["garbage"]):
-        per_seed.append(_spawn(cases, h, rs, gb))
+    for k, (h, rs, gb) in enumerate(zip(scen["hashseeds"], scen["rand_seeds"], scen["garbage"])):
+        opt = bool(scen.get("optimize", [])[k:k + 1] and scen["optimize"][k])
+        per_seed.append(_spawn(cases, h, rs, gb, optimize=opt))
         sim.probes["interpreters_started"] += 1
+        if opt:
+            sim.probes["interpreters_optimised"] += 1
     nontrivial_cases = 0
     case_flags = []
     for ci, case in enumerate(cases):
@@ -335,8 +345,9 @@ def shrink(scen):
     if len(scen["hashseeds"]) > 2:
         for i in range(1, len(scen["hashseeds"])):
             c = copy.deepcopy(scen)
-            for key in ("hashseeds", "rand_seeds", "garbage"):
-                c[key] = [c[key][0], c[key][i]]
+            for key in ("hashseeds", "rand_seeds", "garbage", "optimize"):
+                if key in c:
+                    c[key] = [c[key][0], c[key][i]]
             yield c
     if len(scen["cases"]) == 1:
         case = scen["cases"][0]
